@@ -15,15 +15,20 @@ CTXS = ["segwitv0", "tap", "legacy", "bare"]
 
 
 # composite (larger than the node bound) sampling of Gen_Sat: keep every stride-th composite
-COMP_STRIDE = {"quick": {"sat": (5, 20), "other": (9, 30)}, "thorough": {"sat": (2, 12), "other": (3, 30)}}
+# (pool stride, keep): the cost of the composite families is quadratic in pool size = universe / stride;
+# the thorough universe is about 3x the quick one, so the same strides already give 9x the composites
+COMP_STRIDE = {"quick": {"sat": (5, 20), "other": (9, 30)}, "thorough": {"sat": (7, 12), "other": (9, 10)}}
 
 
-def gen_cfg_sat(u, ctx, maxnodes, stride, seed):
-    return gen_cfg(u, ctx, maxnodes, comp=stride, seed=seed)
+NC_KEEP = {"quick": {"sat": 4, "other": 8}, "thorough": {"sat": 1, "other": 2}}
 
 
-def gen_cfg(u, ctx, maxnodes=None, comp=(0, 1), seed=1):
-    return ["CONSTANTS", "  CompStride = %d" % comp[0], "  CompKeep = %d" % comp[1], "  CompSeed = %d" % seed, '  Ctx = "%s"' % ctx, "  KeyIds = %s" % u["KeyIds"], "  HashLeaves <- c_HashLeaves",
+def gen_cfg_sat(u, ctx, maxnodes, stride, seed, nc=0):
+    return gen_cfg(u, ctx, maxnodes, comp=stride, seed=seed, nc=nc)
+
+
+def gen_cfg(u, ctx, maxnodes=None, comp=(0, 1), seed=1, nc=0):
+    return ["CONSTANTS", "  NCKeep = %d" % nc, "  CompStride = %d" % comp[0], "  CompKeep = %d" % comp[1], "  CompSeed = %d" % seed, '  Ctx = "%s"' % ctx, "  KeyIds = %s" % u["KeyIds"], "  HashLeaves <- c_HashLeaves",
             "  Afters = %s" % u["Afters"], "  Olders = %s" % u["Olders"], "  MultiKs <- c_MultiKs",
             "  MaxNodes = %d" % (maxnodes or u["MaxNodes"][ctx]), "  MaxThreshN = %d" % u["MaxThreshN"]]
 
@@ -38,9 +43,8 @@ def generate(wd, tier, ctxs, seed=1):
 
     def one(ctx):
         name = "Gen_Sat_%s" % ctx
-        write_module(wd, name, "Gen_Sat", gen_defs(u), gen_cfg_sat(u, ctx, u["MaxNodes"][ctx], COMP_STRIDE[tier]["sat"], seed))
         out = os.path.join(wd, "cases_%s.ndjson" % ctx)
-        r = tlc(wd, name, name + ".cfg", env={"OUT": out}, workers=1, heap="6g", timeout=3000)
+        r = gen_cached(wd, name, "Gen_Sat", gen_defs(u), gen_cfg_sat(u, ctx, u["MaxNodes"][ctx], COMP_STRIDE[tier]["sat"], seed, nc=NC_KEEP[tier]["sat"]), out, heap="6g")
         g = r.tagged("GEN")
         if not g or not os.path.exists(out):
             log(r.out[-3000:])
@@ -119,6 +123,18 @@ def run(tier, seed, ctxs=CTXS, wd=None, with_mc=True):
             stats["transitions"] += r.generated
             stats.setdefault("mc", {})[ctx] = {"distinct": r.distinct, "secs": round(r.secs, 1)}
             log("MC_SatSet %s: %d states (%.1fs)" % (ctx, r.distinct, r.secs))
+            # L2: the satisfier algorithm (Satisfier.tla) against L1, without the library
+            name = "MC_Satisfier_%s" % ctx
+            cfg = gen_cfg(u, ctx, maxnodes=(3 if tier == "quick" else 4)) + ["INIT Init", "NEXT Next", "INVARIANT Inv", "POSTCONDITION Post", "CHECK_DEADLOCK FALSE"]
+            write_module(wd, name, "MC_Satisfier", gen_defs(u), cfg)
+            r = tlc(wd, name, name + ".cfg", workers=10, heap="12g", timeout=3300)
+            if not r.ok or r.tagged("VERDICT") or not r.tagged("MC_DONE"):
+                log(r.out[-4000:])
+                raise ToolError("MC_Satisfier lemma failed (%s): the L2 satisfier model violates L1" % ctx)
+            stats["states"] += r.distinct
+            stats["transitions"] += r.generated
+            stats.setdefault("mc_satisfier", {})[ctx] = {"fragments": r.tagged("MC_DONE")[0][1], "secs": round(r.secs, 1)}
+            log("MC_Satisfier %s: %d fragments (%.1fs)" % (ctx, r.tagged("MC_DONE")[0][1], r.secs))
     stats["wall"] = time.time() - t0
     return {"verdicts": verdicts, "stats": stats, "wd": wd}
 
